@@ -31,9 +31,15 @@ type hist struct {
 	// lockCountsUncertain is set once a lock-owner locked one file
 	// through two open-owners.
 	lockCountsUncertain bool
-	sits                map[string]int
-	hashParts           []string
-	steps               int
+	// allowTrailingFailure is set while a compound is sent whose
+	// operations after the deciding one may legitimately fail.
+	allowTrailingFailure bool
+	// openParked is set while an OPEN is parked inside the directory:
+	// the server has records the model only adds once the reply is in.
+	openParked bool
+	sits       map[string]int
+	hashParts  []string
+	steps      int
 }
 
 type closedRef struct {
@@ -189,7 +195,7 @@ func (h *hist) send(c *client, desc string, fh fhRef, slot int, ops ...nfsv4.Nfs
 		rr.st = res.Status
 	} else {
 		rr.st = nfsv4.NFS4_OK
-		if res.Status != nfsv4.NFS4_OK {
+		if res.Status != nfsv4.NFS4_OK && !h.allowTrailingFailure {
 			h.w.violation("unexpected-status op=GETFH variant=trailing", fmt.Sprintf("%s %s: operation after the deciding one failed with %s", c, desc, stName(res.Status)))
 		}
 	}
